@@ -59,6 +59,14 @@ def run(chk, args):
     if not w["violated"]:
         raise vlib.Machinery("vacuity control: History_asWritten should violate Purity/ArgsUntouched")
     chk.notes["vacuity_control"] = "History_asWritten.cfg violates %s as it must" % w["violated"]
+    r2 = vlib.tlc_must_pass("History", "History_held.cfg", timeout=1800)
+    chk.add_tlc(r2, "History with the array the caller keeps (HeldStable)")
+    if r2["violated"]:
+        chk.design_violation(r2, "History", {"class": "design-held"})
+    w2 = vlib.tlc("History", "History_view.cfg", timeout=600)
+    if w2["violated"] != "HeldStable":
+        raise vlib.Machinery("vacuity control: History_view (kernel returns a view of its buffer) should violate HeldStable")
+    chk.notes["vacuity_control_view"] = "History_view.cfg violates HeldStable as it must"
 
     if args.replay:
         hs = [json.load(open(args.replay))["detail"]["scenario"]]
